@@ -112,7 +112,7 @@ def gen_case(r, fns, prof, nev):
             elif kind == "invcn":
                 evs.append("E %d invcn %s" % (dt, r.pick(["nosuch", "f999", "t1"])))
             elif kind == "invw":
-                cap = (f["limit"] or 3) + 2
+                cap = 1 if f["sig"] == 3 else (f["limit"] or 3) + 2
                 xs = sorted(set(r.below(cap) for _ in range(r.below(3) + 1)))
                 evs.append("E %d invw %d %s" % (dt, f["idx"], ",".join(map(str, xs))))
             elif kind == "invwn":
@@ -121,7 +121,7 @@ def gen_case(r, fns, prof, nev):
                 parts = []
                 for g in chosen:
                     if r.chance(2, 3):
-                        cap = (g["limit"] or 3) + 2
+                        cap = 1 if g["sig"] == 3 else (g["limit"] or 3) + 2
                         xs = sorted(set(r.below(cap) for _ in range(r.below(3) + 1)))
                         parts.append("%d:%s" % (g["idx"], ",".join(map(str, xs))))
                 evs.append("E %d invall %s" % (dt, ";".join(parts) or "-"))
